@@ -1,0 +1,32 @@
+//go:build verif
+// +build verif
+
+// Package verifhook provides observation points for external verification
+// harnesses. With the "verif" build tag a harness may install a handler that
+// is called, on the calling goroutine, at every observation point; the
+// handler may record the event or block to force an interleaving. Without a
+// handler the points do nothing.
+package verifhook
+
+import "sync/atomic"
+
+// Enabled reports whether the package was built with the verif tag.
+const Enabled = true
+
+type handlerBox struct {
+	f func(point string, args ...interface{})
+}
+
+var handler atomic.Value // handlerBox
+
+// Set installs (or, with nil, removes) the handler.
+func Set(f func(point string, args ...interface{})) {
+	handler.Store(handlerBox{f})
+}
+
+// At marks an observation point.
+func At(point string, args ...interface{}) {
+	if h, ok := handler.Load().(handlerBox); ok && h.f != nil {
+		h.f(point, args...)
+	}
+}
